@@ -128,7 +128,7 @@ fn normalize_basic_value_for_boundaries(
             let lower_value = &lower.value;
             let upper_value = &upper.value;
             let adjust_x_lower = gen_adjust_x_for_lower_boundary(inner_type, &lower);
-            let adjust_x_upper = gen_adjust_x_for_upper_boundary(inner_type, &lower);
+            let adjust_x_upper = gen_adjust_x_for_upper_boundary(inner_type, &upper);
             quote! {
                 let from0to1 = #arbitrary_in_01_range;
 
